@@ -299,6 +299,33 @@ class Boundary(LinesPart):
         return lines
 
 
+class LongLines(LinesPart):
+    name = "long_lines"
+    desc = "many tokens on one line, tokens far into long lines, digit-free / dot-free / colon-free surroundings"
+
+    def cases(self):
+        return [{"k": k} for k in (1, 2, 3, 17, 64, 200)]
+
+    def gen(self, case):
+        k = case["k"]
+        toks = ["1.2.3.4", "dead:beef::cafe", "FE::A", "010.009.008.007", "::", "1.2.3.256", "::ffff:1.2.3.4", "a::b",
+                "255.255.255.0", "ff::", "9.9.9.9/32", "fd::abcd:ef/64"]
+        lines = []
+        for si, sep in enumerate([" ", ",", ";", " - ", "|", "\t"]):
+            for start in range(len(toks)):
+                seq = [toks[(start + i * (si + 1)) % len(toks)] for i in range(k)]
+                lines.append(sep.join(seq))
+                lines.append("prefix words only " + sep.join(seq) + " trailing words")
+        pad = "lorem ipsum dolor sit amet " * 160
+        for t in toks:
+            lines.append(pad + t)
+            lines.append(pad + t + " " + pad)
+            lines.append(t + " " + pad)
+            lines.append("neighbor " + t + " remote")
+            lines.append("peer " + t)
+        return lines
+
+
 def parts(tier, seed):
     return [V4Tokens(tier, seed), V6Tokens(tier, seed), V6Tails(tier, seed), Contexts(tier, seed),
-            Boundary(tier, seed)]
+            Boundary(tier, seed), LongLines(tier, seed)]
